@@ -2,6 +2,7 @@ package sim
 
 import (
 	"fmt"
+	"reflect"
 	"regexp"
 	"sort"
 
@@ -211,6 +212,14 @@ func locsV1(path string, a *dynamodb.AttributeValue, out *[]pokeLoc) {
 
 // ---- shared by both drivers --------------------------------------------------
 
+func mapIdentity(v any) uintptr {
+	rv := reflect.ValueOf(v)
+	if rv.Kind() != reflect.Map || rv.IsNil() {
+		return 0
+	}
+	return rv.Pointer()
+}
+
 func pokeKept(kept map[int]*retained, stats map[string]int, sdk string, ref int, dir string, slot int) string {
 	r := kept[ref]
 	if r == nil {
@@ -236,6 +245,22 @@ func pokeKept(kept map[int]*retained, stats map[string]int, sdk string, ref int,
 		r.outPoked = true
 	} else {
 		r.inPoked = true
+	}
+	// a paginator hands the LastEvaluatedKey it received back verbatim: the same
+	// map is an output of one command and an input of the next. A poke through
+	// either name is a poke of both.
+	for _, rt := range roots {
+		id := mapIdentity(rt.v)
+		if id == 0 {
+			continue
+		}
+		for _, o := range kept {
+			for _, ort := range o.out {
+				if mapIdentity(ort.v) == id {
+					o.outPoked = true
+				}
+			}
+		}
 	}
 	stats[sdk+"/"+dir+"/"+l.kind]++
 	return l.desc
